@@ -601,17 +601,29 @@ func H_C12_nativeEndToEnd() {
 					bad++
 				}
 			}
-			for _, k := range []uint64{1, 7, 255, 1 << 33, 1<<63 + 5, 1<<63 + 1<<62, math.MaxUint64 - 3} {
-				var last uint64
-				if final(func(t *T) {
-					v := Uint64().Draw(t, "v")
-					last = v
-					if v >= k {
-						fail(t, v)
-					}
-				}) && last != k {
-					bad++
+			for _, k := range []uint64{1, 7, 255, 1 << 33, 1<<63 + 5, 1<<63 + 1<<62, 0xDEADBEEFCAFEF00D, math.MaxUint64 - 3} {
+				// thresholds in the upper half are found in two ways (through the type maximum, or by an
+				// ordinary full-width draw, a few percent of the seeds): sweep more seeds for them
+				extra := uint64(0)
+				if k > 1<<63 && seed == 1 && !usePanic {
+					extra = 60
 				}
+				for s2 := uint64(0); s2 <= extra; s2++ {
+					if s2 > 0 {
+						flags.seed = 100 + s2
+					}
+					var last uint64
+					if final(func(t *T) {
+						v := Uint64().Draw(t, "v")
+						last = v
+						if v >= k {
+							fail(t, v)
+						}
+					}) && last != k {
+						bad++
+					}
+				}
+				flags.seed = seed
 			}
 			for _, k := range []int8{1, 3, 100, 126} {
 				var last int8
